@@ -220,8 +220,17 @@ PROPS["C11"] = dict(
     level_text="QuantileCI.tla: TLC checks that the greedy accumulation satisfies Valid (confidence = mass of the buckets, >= c, contains a mode, an end bucket is needed, Ambiguous means the shifted interval has the same mass) and is nested in c for all n <= 8, q = a/8, c = j/32. QuantileCITrace.tla: every recorded call for n = 1..12 (thorough 1..30), q = a/16 (a/40) and q within 1e-9 of 0 and 1, c on a grid of 40 (200) levels plus -0.5, 1.5 and every reported cumulative mass with its two float neighbours, is judged by Valid with exact masses and must be nested with all earlier results for the same distribution; for n in {31,32,50,100,1000,2000} the returned orders must be the central normal band rounded outward to half-integers (upper end optionally one lower with Ambiguous), clamped, with Confidence its normal mass. SampleCI is replayed on every enumerated unweighted sample and every order pair",
     level_note="Trusted: TLC, binder comparison code; for n > 30 the values of PhiInv (math.Erfinv) and Phi (math.Erfc) computed by the harness independently of the repository's NormalDist. Tolerances: Confidence 1e-9, 'at least c' as >= c - 1e-12, rounding boundaries within 1e-7 accept either side. For c <= 0 or q in {0,1} with n > 30 only the range and Confidence >= c are required (no central band exists).",
     stages=[
-        dict(name="greedy", kind="mc", module="QuantileCI.tla", cfg="Greedy.cfg", consts=dict(MaxN={"quick": 8, "thorough": 9}, QDen=8, CDen={"quick": 32, "thorough": 64}),
+        dict(name="greedy", kind="mc", module="QuantileCI.tla", cfg="Greedy.cfg", consts=dict(MaxN=8, QDen=8, CDen={"quick": 32, "thorough": 64}),
              note="greedy accumulation satisfies the relational specification and is nested in c"),
+        # further grids for the same design-level check; each keeps QDen^MaxN * CDen below 2^31 (TLC integers)
+        dict(name="greedy6", kind="mc", module="QuantileCI.tla", cfg="Greedy.cfg", tiers=["thorough"], consts=dict(MaxN=10, QDen=6, CDen=32),
+             note="q = a/6, n <= 10, c = j/32"),
+        dict(name="greedy5", kind="mc", module="QuantileCI.tla", cfg="Greedy.cfg", tiers=["thorough"], consts=dict(MaxN=12, QDen=5, CDen=8),
+             note="q = a/5, n <= 12, c = j/8"),
+        dict(name="greedy3", kind="mc", module="QuantileCI.tla", cfg="Greedy.cfg", tiers=["thorough"], consts=dict(MaxN=17, QDen=3, CDen=16),
+             note="q = a/3, n <= 17, c = j/16"),
+        dict(name="greedy2", kind="mc", module="QuantileCI.tla", cfg="Greedy.cfg", tiers=["thorough"], consts=dict(MaxN=25, QDen=2, CDen=32),
+             note="q = a/2, n <= 25, c = j/32"),
         dict(name="trace", kind="trace", module="QuantileCITrace.tla", cfg="QuantileCITrace.cfg",
              record_args={"quick": ["-n", 80, "-max", 12, "-qden", 16, "-levels", 40], "thorough": ["-n", 100000, "-max", 30, "-qden", 40, "-levels", 200]},
              shards={"quick": 8, "thorough": 16}, timeout={"quick": 900, "thorough": 7000}),
